@@ -56,6 +56,23 @@ def _parse_cached(text):
     return tree
 
 
+_PRISTINE = {}
+
+
+def _parse_fresh(text):
+    import copy
+    tree = _PRISTINE.get(text)
+    if tree is None:
+        tree = _PRISTINE[text] = beanquery.parser.parse(text)
+    return copy.deepcopy(tree)
+
+
+def parse_fresh(text):
+    """A private copy of the parsed statement (parsed once per process, deep-copied per use:
+    the compiler is allowed to annotate the tree it is given)."""
+    return h.native(_parse_fresh, text)
+
+
 def parse(text):
     """Parse concrete text with the real parser at native speed (R5).  Trees without
     placeholders are cached per process (the same text recurs on every path)."""
